@@ -355,6 +355,8 @@ struct Built<C: GenericConfig<D, F = F>> {
     data: CircuitData<F, C, D>,
     ins: Vec<Vec<Target>>,
     outs: Vec<Vec<Target>>,
+    /// index returned by add_lookup_table_from_pairs for every declared table (identical tables share one)
+    tidx: Vec<usize>,
 }
 
 fn build<C: GenericConfig<D, F = F>>(s: &Scenario, config: plonky2::plonk::circuit_data::CircuitConfig) -> Result<Built<C>, String> {
@@ -363,11 +365,6 @@ fn build<C: GenericConfig<D, F = F>>(s: &Scenario, config: plonky2::plonk::circu
     let mut tidx = vec![];
     for t in &s.tables {
         tidx.push(b.add_lookup_table_from_pairs(Arc::new(t.pairs.clone())));
-    }
-    for (k, i) in tidx.iter().enumerate() {
-        if *i != k {
-            return Err(format!("table {k} was given index {i} (identical tables are shared)"));
-        }
     }
     let mut ins = vec![vec![]; nt];
     let mut outs = vec![vec![]; nt];
@@ -398,7 +395,7 @@ fn build<C: GenericConfig<D, F = F>>(s: &Scenario, config: plonky2::plonk::circu
         outs[t].push(o);
     }
     let data = b.build::<C>();
-    Ok(Built { data, ins, outs })
+    Ok(Built { data, ins, outs, tidx })
 }
 
 fn run_one<C: GenericConfig<D, F = F>>(s: &Scenario, selftest: bool, max_cor: usize, ext_every: usize) -> Vec<Value> {
@@ -475,24 +472,65 @@ fn run_one<C: GenericConfig<D, F = F>>(s: &Scenario, selftest: bool, max_cor: us
             }
         }
     }
-    // ---- layout against the prediction of spec/LookupLayout.tla
-    let base = prover.lookup_rows.first().map(|w| w.last_lu_gate).unwrap_or(0);
+    // ---- table identity: the builder stores every distinct table once; `tix[t]` is the stored index of declared table t
+    let tix = &built.tidx;
+    let nstored = prover.lookup_rows.len();
     let mut layout = vec![];
+    let mut index_anomalies = vec![];
+    for t in 0..nt {
+        for t2 in 0..t {
+            let same = s.tables[t].pairs == s.tables[t2].pairs;
+            if same != (tix[t] == tix[t2]) {
+                index_anomalies.push(json!({"tables": [t2, t], "identical": same, "indices": [tix[t2], tix[t]]}));
+            }
+        }
+        if let Some(x) = s.expect["indices"][t].as_u64() {
+            if x as usize != tix[t] {
+                layout.push(json!({"table": t, "field": "table_index", "predicted": x, "observed": tix[t]}));
+            }
+        } else if tix[t] != t {
+            layout.push(json!({"table": t, "field": "table_index", "predicted": t, "observed": tix[t]}));
+        }
+        if tix[t] >= nstored || tix[t] >= prover.lut_to_lookups.len() {
+            return vec![json!({"id": id, "complete": true, "layout": layout, "wrong_outputs": wrong_outputs, "index_anomalies": index_anomalies,
+                "note": "a table index beyond the stored tables"})];
+        }
+    }
+    // first declared table of every stored one, and the (table, lookup) behind every stored lookup
+    let decl_of: Vec<Option<usize>> = (0..nstored).map(|i| (0..nt).find(|t| tix[*t] == i)).collect();
+    let mut who: std::collections::HashMap<Target, (usize, usize)> = Default::default();
+    for t in 0..nt {
+        for k in 0..s.tables[t].lookups.len() {
+            who.insert(built.ins[t][k], (t, k));
+        }
+    }
+    let members: Vec<Vec<(usize, usize)>> = (0..nstored).map(|i| prover.lut_to_lookups[i].iter().filter_map(|(inp, _)| who.get(inp).copied()).collect()).collect();
+    let mut pos = vec![vec![usize::MAX; 0]; nt];
+    for t in 0..nt {
+        pos[t] = vec![usize::MAX; s.tables[t].lookups.len()];
+    }
+    for i in 0..nstored {
+        for (p, (t, k)) in members[i].iter().enumerate() {
+            pos[*t][*k] = p;
+        }
+    }
+    // ---- layout against the prediction of spec/LookupLayout.tla / spec/LookupTables.tla (per STORED table)
+    let base = prover.lookup_rows.first().map(|w| w.last_lu_gate).unwrap_or(0);
     let mut observed_rows = vec![];
-    for (t, w) in prover.lookup_rows.iter().enumerate() {
+    for (i, w) in prover.lookup_rows.iter().enumerate() {
         observed_rows.push(json!({"last_lu": w.last_lu_gate - base, "last_lut": w.last_lut_gate - base, "first_lut": w.first_lut_gate - base}));
-        let ex = &s.expect["rows"][t];
+        let ex = &s.expect["rows"][i];
         if !ex.is_null() {
             for (k, v) in [("last_lu", w.last_lu_gate - base), ("last_lut", w.last_lut_gate - base), ("first_lut", w.first_lut_gate - base)] {
                 if ex[k].as_u64() != Some(v as u64) {
-                    layout.push(json!({"table": t, "field": k, "predicted": ex[k], "observed": v}));
+                    layout.push(json!({"table": i, "field": k, "predicted": ex[k], "observed": v}));
                 }
             }
         }
     }
-    if prover.lookup_rows.len() != nt {
-        layout.push(json!({"field": "num_tables", "predicted": nt, "observed": prover.lookup_rows.len()}));
-        return vec![json!({"id": id, "complete": true, "layout": layout, "wrong_outputs": wrong_outputs, "note": "layout too different to continue"})];
+    let expected_stored = s.expect["rows"].as_array().map(|r| r.len()).unwrap_or(nt);
+    if nstored != expected_stored {
+        layout.push(json!({"field": "num_tables", "predicted": expected_stored, "observed": nstored}));
     }
     if let Some(n) = s.expect["num_lookup_polys"].as_u64() {
         if n as usize != common.num_lookup_polys {
@@ -507,54 +545,67 @@ fn run_one<C: GenericConfig<D, F = F>>(s: &Scenario, selftest: bool, max_cor: us
     let rep = &prover.representative_map;
     let nw = a0.num_wires;
     let degree = a0.degree;
-    // slot of lookup k of table t / of entry e (model placement), checked against the copy classes
-    let lu_cell = |t: usize, k: usize| -> (usize, usize) { (prover.lookup_rows[t].last_lu_gate + k / l_slots, k % l_slots) };
-    let lut_cell = |t: usize, e: usize| -> (usize, usize) { (prover.lookup_rows[t].first_lut_gate - e / s_slots, e % s_slots) };
-    for t in 0..nt {
-        let w = &prover.lookup_rows[t];
-        let tb = &s.tables[t];
-        for k in 0..tb.lookups.len() {
-            let (row, slot) = lu_cell(t, k);
+    // slot of lookup k of declared table t (its position among the lookups of the stored table) / of entry e
+    let lu_cell = |t: usize, k: usize| -> (usize, usize) { (prover.lookup_rows[tix[t]].last_lu_gate + pos[t][k] / l_slots, pos[t][k] % l_slots) };
+    let lut_cell = |t: usize, e: usize| -> (usize, usize) { (prover.lookup_rows[tix[t]].first_lut_gate - e / s_slots, e % s_slots) };
+    let pad_of = |t: usize| -> usize { (l_slots - prover.lut_to_lookups[tix[t]].len() % l_slots) % l_slots };
+    for i in 0..nstored {
+        let w = &prover.lookup_rows[i];
+        let Some(t0) = decl_of[i] else { continue };
+        let pairs = &s.tables[t0].pairs;
+        if members[i].len() != prover.lut_to_lookups[i].len() {
+            layout.push(json!({"table": i, "field": "stored_lookups", "observed": prover.lut_to_lookups[i].len(), "mapped": members[i].len()}));
+        }
+        for (t, k) in members[i].iter() {
+            if pos[*t][*k] == usize::MAX {
+                continue;
+            }
+            let (row, slot) = lu_cell(*t, *k);
             let wi = row * nw + LookupGate::wire_ith_looking_inp(slot);
             let wo = row * nw + LookupGate::wire_ith_looking_out(slot);
-            if row >= w.last_lut_gate || rep[wi] != rep[a0.idx(built.ins[t][k])] || rep[wo] != rep[a0.idx(built.outs[t][k])] {
-                layout.push(json!({"table": t, "field": "lookup_slot", "lookup": k, "predicted": [row - base, slot]}));
+            if row >= w.last_lut_gate || rep[wi] != rep[a0.idx(built.ins[*t][*k])] || rep[wo] != rep[a0.idx(built.outs[*t][*k])] {
+                layout.push(json!({"table": i, "field": "lookup_slot", "lookup": [t, k], "predicted": [row - base, slot]}));
             }
         }
         // padding of the last lookup row and of the table rows; multiplicities
-        let pad = (l_slots - tb.lookups.len() % l_slots) % l_slots;
-        let first = tb.pairs[0];
+        let pad = (l_slots - members[i].len() % l_slots) % l_slots;
+        let first = pairs[0];
         for slot in l_slots - pad..l_slots {
             let row = w.last_lut_gate - 1;
-            let (i, o) = (a0.wire(row, 2 * slot).to_canonical_u64(), a0.wire(row, 2 * slot + 1).to_canonical_u64());
-            if (i, o) != (first.0 as u64, first.1 as u64) {
-                layout.push(json!({"table": t, "field": "lu_padding", "slot": slot, "observed": [i, o]}));
+            let (x, o) = (a0.wire(row, 2 * slot).to_canonical_u64(), a0.wire(row, 2 * slot + 1).to_canonical_u64());
+            if (x, o) != (first.0 as u64, first.1 as u64) {
+                layout.push(json!({"table": i, "field": "lu_padding", "slot": slot, "observed": [x, o]}));
             }
         }
-        let mut mult = vec![0u64; tb.pairs.len()];
-        for e in &tb.lookups {
-            mult[*e] += 1;
+        let mut mult = vec![0u64; pairs.len()];
+        for (t, k) in members[i].iter() {
+            let e = s.tables[*t].lookups[*k];
+            if e < mult.len() {
+                mult[e] += 1;
+            } else {
+                layout.push(json!({"table": i, "field": "entry_beyond_stored_table", "lookup": [t, k], "entry": e}));
+            }
         }
         mult[0] += pad as u64;
-        for e in 0..tb.pairs.len() {
-            let (row, slot) = lut_cell(t, e);
+        for e in 0..pairs.len() {
+            let (row, slot) = (w.first_lut_gate - e / s_slots, e % s_slots);
             let got = (a0.wire(row, 3 * slot).to_canonical_u64(), a0.wire(row, 3 * slot + 1).to_canonical_u64(), a0.wire(row, 3 * slot + 2).to_canonical_u64());
-            if got != (tb.pairs[e].0 as u64, tb.pairs[e].1 as u64, mult[e]) {
-                layout.push(json!({"table": t, "field": "table_entry", "entry": e, "observed": [got.0, got.1, got.2], "predicted_mult": mult[e]}));
+            if got != (pairs[e].0 as u64, pairs[e].1 as u64, mult[e]) {
+                layout.push(json!({"table": i, "field": "table_entry", "entry": e, "observed": [got.0, got.1, got.2], "predicted_mult": mult[e]}));
             }
         }
-        let tpad = (s_slots - tb.pairs.len() % s_slots) % s_slots;
+        let tpad = (s_slots - pairs.len() % s_slots) % s_slots;
         for slot in s_slots - tpad..s_slots {
             let row = w.last_lut_gate;
             let got = (a0.wire(row, 3 * slot).to_canonical_u64(), a0.wire(row, 3 * slot + 1).to_canonical_u64(), a0.wire(row, 3 * slot + 2).to_canonical_u64());
             if got != (first.0 as u64, first.1 as u64, 0) {
-                layout.push(json!({"table": t, "field": "table_padding", "slot": slot, "observed": [got.0, got.1, got.2]}));
+                layout.push(json!({"table": i, "field": "table_padding", "slot": slot, "observed": [got.0, got.1, got.2]}));
             }
         }
-        if let Some(m) = s.expect["mult"][t].as_array() {
+        if let Some(m) = s.expect["mult"][i].as_array() {
             let pm: Vec<u64> = m.iter().map(|x| x.as_u64().unwrap_or(u64::MAX)).collect();
             if pm != mult {
-                layout.push(json!({"table": t, "field": "mult_prediction", "predicted": pm, "harness": mult}));
+                layout.push(json!({"table": i, "field": "mult_prediction", "predicted": pm, "harness": mult}));
             }
         }
     }
@@ -562,11 +613,13 @@ fn run_one<C: GenericConfig<D, F = F>>(s: &Scenario, selftest: bool, max_cor: us
     let v0 = oracle::check(&a0, prover, common, &constants);
     out.push(json!({"id": id, "complete": true, "wrong_outputs": wrong_outputs, "layout": layout, "rows": observed_rows, "base": base,
         "degree_bits": common.degree_bits(), "num_lookup_polys": common.num_lookup_polys, "oracle_honest_ok": v0.satisfied(),
-        "binding_bits": cfg.binding_bits()}));
-    if !v0.satisfied() || !layout.is_empty() {
-        // without the predicted placement the corruptions below would not hit what they name
+        "binding_bits": cfg.binding_bits(), "index_anomalies": index_anomalies, "indices": tix}));
+    if !v0.satisfied() || pos.iter().any(|p| p.iter().any(|x| *x == usize::MAX)) {
         return out;
     }
+    // without the predicted placement the cell-level corruptions would not hit what they name; the corruptions made by
+    // forged witness generation only need the lookups' own targets and stay meaningful
+    let robust_only = !layout.is_empty();
     // ---- corruptions
     let mut r = rand_chacha::ChaCha8Rng::seed_from_u64(seed() ^ s.id.bytes().fold(7u64, |a, b| a.wrapping_mul(131).wrapping_add(b as u64)));
     // Forged witness generation: lookup k of table t is pinned to (new_in, new_out), its LookupGenerator
@@ -621,9 +674,9 @@ fn run_one<C: GenericConfig<D, F = F>>(s: &Scenario, selftest: bool, max_cor: us
             return None;
         }
         let mut a = Assignment::from_partition(&w);
-        for t2 in 0..nt {
+        for t2 in 0..nstored {
             let lw = &prover.lookup_rows[t2];
-            let pad = (l_slots - s.tables[t2].lookups.len() % l_slots) % l_slots;
+            let pad = (l_slots - prover.lut_to_lookups[t2].len() % l_slots) % l_slots;
             for slot in l_slots - pad..l_slots {
                 for col in [2 * slot, 2 * slot + 1] {
                     let x = (lw.last_lut_gate - 1) * nw + col;
@@ -643,6 +696,9 @@ fn run_one<C: GenericConfig<D, F = F>>(s: &Scenario, selftest: bool, max_cor: us
     let in_table = |t: usize, i: u64, o: u64| s.tables[t].pairs.iter().any(|p| p.0 as u64 == i && p.1 as u64 == o);
     let mut cors: Vec<Corruption> = vec![];
     for kind in &s.kinds {
+        if robust_only && !["none", "out_notin", "out_other_entry", "inp_notin", "pair_other_table"].contains(&kind.as_str()) {
+            continue;
+        }
         match kind.as_str() {
             "none" => cors.push(Corruption { must: false, kind: kind.clone(), assign: None, edits: vec![], desc: json!({}) }),
             "out_notin" | "out_other_entry" | "inp_notin" | "pair_other_table" | "lu_slot_only" => {
@@ -676,7 +732,9 @@ fn run_one<C: GenericConfig<D, F = F>>(s: &Scenario, selftest: bool, max_cor: us
                             }
                             "pair_other_table" => {
                                 // a pair of ANOTHER table that is not an entry of this one; prefer one whose input is an input of this table
+                                // (and, for the first lookup, also the LAST such pair: the tail of a table that extends this one)
                                 let mut best: Option<(usize, (u16, u16), bool)> = None;
+                                let mut last: Option<(usize, (u16, u16), bool)> = None;
                                 for t2 in (0..nt).filter(|x| *x != t) {
                                     for p in s.tables[t2].pairs.iter() {
                                         if !in_table(t, p.0 as u64, p.1 as u64) {
@@ -684,10 +742,20 @@ fn run_one<C: GenericConfig<D, F = F>>(s: &Scenario, selftest: bool, max_cor: us
                                             if best.is_none() || (shared && !best.unwrap().2) {
                                                 best = Some((t2, *p, shared));
                                             }
+                                            last = Some((t2, *p, shared));
                                         }
                                     }
                                 }
-                                if let Some((t2, p, shared)) = best {
+                                let mut picks = vec![];
+                                if let Some(b) = best {
+                                    picks.push(b);
+                                    if let Some(l) = last {
+                                        if k == 0 && l.1 != b.1 {
+                                            picks.push(l);
+                                        }
+                                    }
+                                }
+                                for (t2, p, shared) in picks {
                                     cors.push(Corruption { must: k == 0, kind: kind.clone(), assign: forge(t, k, p.0 as u64, p.1 as u64), edits: vec![],
                                         desc: json!({"table": t, "lookup": k, "entry": e, "pair": [p.0, p.1], "from_table": t2, "input_shared": shared}) });
                                 }
@@ -732,7 +800,7 @@ fn run_one<C: GenericConfig<D, F = F>>(s: &Scenario, selftest: bool, max_cor: us
                 for t in 0..nt {
                     let tb = &s.tables[t];
                     let used: std::collections::BTreeSet<usize> = tb.lookups.iter().copied().collect();
-                    let pad = (l_slots - tb.lookups.len() % l_slots) % l_slots;
+                    let pad = pad_of(t);
                     if let Some(e) = (0..tb.pairs.len()).rev().find(|e| !used.contains(e) && !(*e == 0 && pad > 0)) {
                         let (row, slot) = lut_cell(t, e);
                         let x = row * nw + 3 * slot + 1;
@@ -749,7 +817,7 @@ fn run_one<C: GenericConfig<D, F = F>>(s: &Scenario, selftest: bool, max_cor: us
                         continue;
                     }
                     let tb = &s.tables[t];
-                    let pad = (l_slots - tb.lookups.len() % l_slots) % l_slots;
+                    let pad = pad_of(t);
                     let mut by_entry: std::collections::BTreeMap<usize, Vec<usize>> = Default::default();
                     for (k, e) in tb.lookups.iter().enumerate() {
                         by_entry.entry(*e).or_default().push(k);
@@ -766,7 +834,7 @@ fn run_one<C: GenericConfig<D, F = F>>(s: &Scenario, selftest: bool, max_cor: us
                     let mut edits = vec![(row * nw + 3 * slot + 1, fc(v))];
                     if *e == 0 {
                         for sl in l_slots - pad..l_slots {
-                            edits.push(((prover.lookup_rows[t].last_lut_gate - 1) * nw + 2 * sl + 1, fc(v)));
+                            edits.push(((prover.lookup_rows[tix[t]].last_lut_gate - 1) * nw + 2 * sl + 1, fc(v)));
                         }
                     }
                     cors.push(Corruption { must: t == 0, kind: kind.clone(), assign: forge_many(&pins), edits,
@@ -776,7 +844,7 @@ fn run_one<C: GenericConfig<D, F = F>>(s: &Scenario, selftest: bool, max_cor: us
             "table_pad" | "lu_pad" => {
                 for t in 0..nt {
                     let tb = &s.tables[t];
-                    let w = &prover.lookup_rows[t];
+                    let w = &prover.lookup_rows[tix[t]];
                     if kind == "table_pad" {
                         let tpad = (s_slots - tb.pairs.len() % s_slots) % s_slots;
                         if tpad > 0 {
@@ -787,7 +855,7 @@ fn run_one<C: GenericConfig<D, F = F>>(s: &Scenario, selftest: bool, max_cor: us
                                 desc: json!({"table": t, "row": w.last_lut_gate, "col": col}) });
                         }
                     } else {
-                        let pad = (l_slots - tb.lookups.len() % l_slots) % l_slots;
+                        let pad = pad_of(t);
                         if pad > 0 {
                             let slot = l_slots - 1 - r.gen_range(0..pad);
                             let row = w.last_lut_gate - 1;
@@ -803,7 +871,7 @@ fn run_one<C: GenericConfig<D, F = F>>(s: &Scenario, selftest: bool, max_cor: us
             }
             "noop_cell" => {
                 for t in 0..nt {
-                    let row = prover.lookup_rows[t].first_lut_gate + 1;
+                    let row = prover.lookup_rows[tix[t]].first_lut_gate + 1;
                     for col in [0usize, r.gen_range(0..nw), nw - 1] {
                         cors.push(Corruption { must: false, kind: kind.clone(), assign: None, edits: vec![(row * nw + col, fc(r.gen_range(1..P)))], desc: json!({"table": t, "row": row, "col": col}) });
                     }
@@ -839,7 +907,6 @@ fn run_one<C: GenericConfig<D, F = F>>(s: &Scenario, selftest: bool, max_cor: us
         }
         let diff: Vec<Value> = (0..a.values.len()).filter(|&x| a.values[x] != a0.values[x]).take(8).map(|x| json!([x, a.values[x].to_canonical_u64()])).collect();
         let verdict = oracle::check(&a, prover, common, &constants);
-        let violated = !verdict.satisfied();
         // the property-level fact: some looked-up pair (of a real lookup, through its targets) is not in its table
         let mut bad_pairs = 0;
         for t in 0..nt {
@@ -850,6 +917,9 @@ fn run_one<C: GenericConfig<D, F = F>>(s: &Scenario, selftest: bool, max_cor: us
                 }
             }
         }
+        // the designated table of a lookup is the DECLARED one: a pair outside it violates the property even if the
+        // builder merged the table with another one (the oracle reads the builder's stored tables)
+        let violated = !verdict.satisfied() || bad_pairs > 0;
         let knob_strats: Vec<&String> = s.strategies.iter().filter(|x| !x.starts_with("ext_") && x.as_str() != "plain").collect();
         for st in &s.strategies {
             let is_ext = st.starts_with("ext_");
